@@ -220,6 +220,37 @@ Section Restore.
     - exists s3. split; [exact Hr3|]. split; [exact Hv3|]. rewrite Hd3. apply HV2.
   Qed.
 
+  (* the same with an observe file that may be absent: the memory state that comes out *)
+  Theorem ps_startup_mem : forall m0 D O C fs,
+    psc_dyn c = true -> psc_obs c = true -> psc_cnt c = true -> psc_unknown c = true ->
+    Forall ps_dyn_wf D -> Forall (ps_obs_wf (psc_la c) (psc_lt c)) O -> Forall ps_cnt_wf C ->
+    (length D < psc_fuel c)%nat -> (length O < psc_fuel c)%nat ->
+    (length C + length O < psc_fuel c)%nat ->
+    ps_holds ps_dyn_file (ps_view (ps_boot fs) PS_DYN) D ->
+    ps_holds ps_obs_file (ps_view (ps_boot fs) PS_OBS) O ->
+    ps_holds ps_cnt_file (ps_view (ps_boot fs) PS_CNT) C ->
+    ps_mem_ok (ps_set_counts (ps_rounded (psc_freq c) C) (ps_dyn_fold (ps_dyn_step app) D m0)) ->
+    fst (ps_run pol (ps_startup app req alloc c m0) (ps_boot fs)) = Some (ps_restored_mem m0 D O C).
+  Proof.
+    intros m0 D O C fs Hd Ho Hc Hu HD HO HC HlD HlO HlCO HvD HvO HvC Hok.
+    destruct HvO as [HvO|[HvO ->]].
+    - destruct (ps_startup_restores m0 D O C fs) as (s' & Hr & _); try assumption.
+      rewrite Hr. reflexivity.
+    - unfold ps_startup. rewrite Hd, Hu, Hc, Ho. cbn [andb].
+      rewrite ps_run_bind.
+      destruct (ps_dyn_load_correct pol ps_mem (ps_dyn_step app) (psc_fuel c) D m0 (ps_boot fs) HD HlD HvD)
+        as (s1 & Hr1 & Hf1 & Hn1 & Hg1).
+      rewrite Hr1. rewrite ps_run_bind.
+      assert (HV1 : forall i, ps_view s1 i = ps_view (ps_boot fs) i) by (apply ps_view_files; exact Hf1).
+      assert (HvC1 : ps_holds ps_cnt_file (ps_view s1 PS_CNT) C) by (rewrite HV1; exact HvC).
+      destruct (ps_cnt_load_correct pol (psc_fuel c) (psc_freq c) C s1 HC ltac:(lia) HvC1)
+        as (s2 & Hr2 & Hf2 & Hn2 & Hg2).
+      rewrite Hr2.
+      assert (HV2 : ps_view s2 PS_OBS = None).
+      { rewrite <- HvO, <- HV1. apply ps_view_files. exact Hf2. }
+      rewrite (ps_obs_load_missing _ _ _ _ _ HV2). reflexivity.
+  Qed.
+
   (* every dynamic resource in the file exists again (the application re-creates the resource
      a stored request names) *)
   Lemma ps_find_app : forall name m x,
@@ -489,6 +520,62 @@ Section Restore.
       + split.
         * intros r [<-|Hr]; [apply H2; exact Hpx|apply H1; exact Hr].
         * intros r Hr. apply H2. apply Hkeep. exact Hr.
+  Qed.
+
+  (* the same when some records name a resource that does not exist (they are skipped) *)
+  Definition ps_absent (m : ps_mem) (r : ps_obs) : Prop :=
+    exists name token ck, req (pso_pkt r) = Some (name, token, ck) /\ ps_find name m = None.
+
+  Lemma ps_obs_step_spec_absent : forall r m C, ps_absent m r -> ps_obs_step_spec r m C = (m, None, C).
+  Proof.
+    intros r m C (name & token & ck & Hreq & Hf). unfold ps_obs_step_spec.
+    destruct (negb (ps_beq (pso_proto r) (psc_proto c))); [reflexivity|].
+    destruct (negb (ps_beq (pso_listen r) (psc_listen c))); [reflexivity|].
+    rewrite Hreq, Hf. reflexivity.
+  Qed.
+
+  Theorem ps_obs_fold_present_g : forall O m C done,
+    (forall r, In r O -> ps_acceptable m r \/ ps_absent m r) -> ps_from m done ->
+    NoDup (map ps_ktok O) -> NoDup (map ps_kck O) ->
+    (forall r r', In r done -> In r' O -> ps_ktok r <> ps_ktok r' /\ ps_kck r <> ps_kck r') ->
+    let mf := fst (fst (ps_obs_fold ps_mem ps_obs_step_spec O m C)) in
+    (forall r, In r O -> ps_acceptable m r -> ps_present mf r) /\
+    (forall r, ps_present m r -> ps_present mf r).
+  Proof.
+    induction O as [|x O IH]; intros m C done Hacc Hfrom Hn1 Hn2 Hdone; cbn [ps_obs_fold fst snd].
+    - split; [intros r []|tauto].
+    - inversion Hn1 as [|? ? Hx1 Hn1']; subst. inversion Hn2 as [|? ? Hx2 Hn2']; subst.
+      destruct (Hacc x (or_introl eq_refl)) as [Hax|Habs].
+      + destruct (ps_obs_step_spec_new x m C done Hax Hfrom) as (Hpx & Hfrom' & Hkeep & Hacc').
+        { intros r' Hr'. apply (Hdone r' x Hr'). left; reflexivity. }
+        destruct (IH (fst (fst (ps_obs_step_spec x m C))) (snd (ps_obs_step_spec x m C)) (x :: done))
+          as [H1 H2].
+        * intros r Hr. destruct (Hacc r (or_intror Hr)) as [Ha|(name & token & ck & Hreq & Hf)].
+          -- left. apply Hacc'. exact Ha.
+          -- right. exists name, token, ck. split; [exact Hreq|].
+             destruct (ps_find name (fst (fst (ps_obs_step_spec x m C)))) eqn:E; [|reflexivity].
+             exfalso. assert (Hh : ps_has (fst (fst (ps_obs_step_spec x m C))) name)
+               by (unfold ps_has; rewrite E; discriminate).
+             apply ps_obs_step_spec_has in Hh. unfold ps_has in Hh. contradiction.
+        * exact Hfrom'.
+        * exact Hn1'.
+        * exact Hn2'.
+        * intros r r' [<-|Hr] Hr'.
+          -- split; intro E.
+             ++ apply Hx1. rewrite E. apply in_map. exact Hr'.
+             ++ apply Hx2. rewrite E. apply in_map. exact Hr'.
+          -- apply Hdone; [exact Hr|right; exact Hr'].
+        * split.
+          -- intros r [<-|Hr] Har; [apply H2; exact Hpx|apply H1; [exact Hr|apply Hacc'; exact Har]].
+          -- intros r Hr. apply H2. apply Hkeep. exact Hr.
+      + rewrite (ps_obs_step_spec_absent x m C Habs). cbn [fst snd].
+        destruct (IH m C done) as [H1 H2]; try assumption.
+        * intros r Hr. apply Hacc. right. exact Hr.
+        * intros r r' Hr Hr'. apply Hdone; [exact Hr|right; exact Hr'].
+        * split; [|exact H2]. intros r [<-|Hr] Har; [|apply H1; assumption].
+          exfalso. destruct Har as (_ & _ & n1 & t1 & k1 & rs & Hq & Hf1 & _).
+          destruct Habs as (n2 & t2 & k2 & Hq2 & Hf2). rewrite Hq in Hq2. inversion Hq2; subst.
+          rewrite Hf1 in Hf2. discriminate.
   Qed.
 
   (* C17_restart_restores, observations: in a fresh process (no subscriptions yet) every stored
